@@ -265,7 +265,7 @@ func (pxy *UDPProxy) Close() {
 		close(pxy.readCh)
 		close(pxy.sendCh)
 		verifhook.At("udp.close.unbound", "pxy", verifhook.ID(pxy.BaseProxy), "name", pxy.name, "port", pxy.realBindPort)
+		pxy.rc.UDPPortManager.Release(pxy.realBindPort)
 	}
 	verifhook.At("udp.close.release", "pxy", verifhook.ID(pxy.BaseProxy), "name", pxy.name, "port", pxy.realBindPort)
-	pxy.rc.UDPPortManager.Release(pxy.realBindPort)
 }
